@@ -21,6 +21,7 @@ import XotModel.Lemmas.FinvStable
 import XotModel.Lemmas.FinvValue7
 import XotModel.Lemmas.FinvComposite
 import XotModel.Lemmas.FinvEditHV
+import XotModel.Lemmas.FinvUnwrapSites
 import XotModel.Lemmas.FinvReads
 import XotModel.Lemmas.FinvPrefix
 import XotModel.Lemmas.FinvIdIndex
@@ -2590,5 +2591,33 @@ example : (wrapWitness.mapRemove .attributes 0 7).2 = .ok ∧
     (wrapWitness.mapClear .attributes 0).1.value? 4 = some (.text ['x']) ∧
     (wrapWitness.mapClear .namespaces 0).1.isLive 1 = false ∧
     (wrapWitness.mapClear .namespaces 0).1.value? 2 = some (.attribute 6 ['v']) := by decide +kernel
+
+/-- ⟦C04_unwrapSites_simpl⟧ `unwrapSites` reads the node before the wrapper on an intermediate state (the previous
+    sibling of the wrapper's first child once the wrapper is spliced out); under the invariant that is the previous
+    sibling of the wrapper in the forest BEFORE the call (wrapper with or without a parent) ... -/
+theorem C04_unwrapSites_simpl (f : Forest) (hi : f.Inv) (n first : Nat) (hfc : f.firstChild n = some first) :
+    (f.removeElement n).prevSibling first = f.prevSibling n :=
+  Forest.removeElement_prevSibling_firstChild hi hfc
+
+/-- ... so the sites of `element_unwrap(n)` are: the previous sibling of `n` and the last child of `n`, both read
+    before the call. -/
+theorem C04_unwrapSites_eq (f : Forest) (hi : f.Inv) (n : Nat) :
+    f.unwrapSites n = (f.prevSibling n).toList ++ (f.lastChild n).toList :=
+  Forest.unwrapSites_simpl hi n
+
+/-- `C04_unwrap_extended_texts` without the intermediate state: a surviving handle that is neither the previous
+    sibling nor the last child of the wrapper has exactly its old value. -/
+theorem C04_unwrap_extended_texts_simpl (f : Forest) (hi : f.Inv) (n x : Nat) (v v' : Value)
+    (hv : f.value? x = some v) (hv' : (f.elementUnwrap n).1.value? x = some v')
+    (h1 : f.prevSibling n ≠ some x) (h2 : f.lastChild n ≠ some x) : v' = v := by
+  apply Forest.elementUnwrap_value_exact hi n hv hv'
+  rw [Forest.unwrapSites_simpl hi n]
+  intro hx
+  rcases List.mem_append.1 hx with h | h
+  · exact h1 (by simpa [Option.mem_toList] using h)
+  · exact h2 (by simpa [Option.mem_toList] using h)
+
+example : compWitness.firstChild 3 = some 4 ∧ (compWitness.removeElement 3).prevSibling 4 = some 2 ∧
+    compWitness.prevSibling 3 = some 2 ∧ compWitness.lastChild 3 = some 7 := by decide +kernel
 
 end XotModel.Props
